@@ -69,6 +69,13 @@ func c03Valid(b *nom.AccountBlock, c *c03Chain, withTransaction bool) {
 		if b.BlockType != nom.BlockTypeContractReceive {
 			verifAssert(len(b.DescendantBlocks) == 0, "accepted => only contract receives carry descendants")
 		}
+		// descendants are account blocks the node stores and later lets their addressees receive: the same rule
+		// "hash matches content" applies to them (the parent's hash covers only the descendants' hash fields); that they are the sends the contract
+		// really generates is decided at the VM level (O3: the regenerated block has the same hash)
+		for _, d := range b.DescendantBlocks {
+			verifAssert(d.Hash == d.ComputeHash(), "accepted => every descendant's hash matches the descendant's content")
+			verifAssert(d.Amount != nil && d.Amount.Sign() >= 0 && c03BigLt(d.Amount, 255), "accepted => descendant amounts in [0, 2^255)")
+		}
 	}
 }
 
